@@ -114,3 +114,81 @@ def entry_points(text, doc, ctx=None, reference=None):
     if first != want_first:
         diff["jsonpath.match"] = first
     return "same" if not diff else {"reference": ref, "differ": diff}
+
+
+_CUSTOM = {}
+
+
+def _custom_env(filter_caching):
+    """an environment with documented customisations: a type-aware function that raises on bad input, and two functions whose
+    `validate` hook fills in an implicit per-node argument (`has('x')` = `has(@, 'x')`, `pos()` = `pos(#)`)"""
+    if filter_caching in _CUSTOM:
+        return _CUSTOM[filter_caching]
+    from jsonpath import JSONPath, JSONPathEnvironment
+    from jsonpath.exceptions import JSONPathTypeError
+    from jsonpath.filter import CURRENT_KEY, SelfPath
+    from jsonpath.function_extensions import ExpressionType, FilterFunction
+
+    class Cap(FilterFunction):
+        arg_types = [ExpressionType.VALUE]
+        return_type = ExpressionType.VALUE
+
+        def __call__(self, v):
+            if not isinstance(v, str):
+                raise JSONPathTypeError("cap() needs a string")
+            return v.upper()
+
+    class Has:
+        def validate(self, env, args, token):  # noqa: ARG002
+            return [SelfPath(JSONPath(env=env, selectors=())), *args] if len(args) == 1 else args
+
+        def __call__(self, node, name):
+            return isinstance(node, dict) and isinstance(name, str) and name in node
+
+    class Pos:
+        def validate(self, env, args, token):  # noqa: ARG002
+            if not args:
+                args.append(CURRENT_KEY)
+            return args
+
+        def __call__(self, key):
+            return key
+    env = JSONPathEnvironment(filter_caching=filter_caching)
+    env.function_extensions["cap"] = Cap()
+    env.function_extensions["has"] = Has()
+    env.function_extensions["pos"] = Pos()
+    _CUSTOM[filter_caching] = env
+    return env
+
+
+CUSTOM_QUERIES = [
+    ("$..[?@.a == 1 || cap(@.b) == 'X']", None), ("$..[?@.a && cap(@.a) != 'q']", None), ("$..[?cap(@.b) == 'AB' || @.a]", None),
+    ("$..[?has('a')]", "$..[?has(@, 'a')]"), ("$..[?!has('b') && @]", "$..[?!has(@, 'b') && @]"), ("$..[?has($.k) || has('c')]", "$..[?has(@, $.k) || has(@, 'c')]"),
+    ("$..[?pos() == 0 || pos() == 'a']", "$..[?# == 0 || # == 'a']"), ("$..[?pos() != 1 && has('a')]", "$..[?# != 1 && has(@, 'a')]"),
+]
+
+
+def custom_functions_agree(doc, ctx=None):
+    """the custom-function queries through sync / async evaluation with filter caching on / off, shorthand against explicit
+    spelling: one outcome (values or error class) for all.  "same" or what differs."""
+    kw = {"filter_context": deep(ctx)} if ctx is not None else {}
+
+    def outcome(f):
+        try:
+            return ["ok", [SX.canon(v) for v in f()]]
+        except Exception as e:  # noqa: BLE001
+            return ["err", exc_name(e)]
+    diff = {}
+    for q, explicit in CUSTOM_QUERIES:
+        got = {}
+        for caching in (True, False):
+            env = _custom_env(caching)
+            for text in (q, explicit) if explicit else (q,):
+                got["sync caching=%s %s" % (caching, text)] = outcome(lambda: env.findall(text, deep(doc), **kw))
+                got["iter caching=%s %s" % (caching, text)] = outcome(lambda: [m.obj for m in env.finditer(text, deep(doc), **kw)])
+                got["async caching=%s %s" % (caching, text)] = outcome(lambda: asyncio.run(env.findall_async(text, deep(doc), **kw)))
+        ref = got["sync caching=False %s" % (explicit or q)]
+        bad = {k: v for k, v in got.items() if v != ref}
+        if bad:
+            diff[q] = {"reference (sync, caching off)": ref, "differ": bad}
+    return "same" if not diff else diff
